@@ -25,7 +25,7 @@ Definition dkind_eqb (a b : dkind) : bool :=
   | DTb e, DTb e' => errv_eqb e e'
   | _, _ => false
   end.
-Definition detail_eqb : detail -> detail -> bool := pair_eqb Nat.eqb dkind_eqb.
+Definition detail_eqb : detail -> detail -> bool := pair_eqb text_eqb dkind_eqb.
 Definition details_eqb : details -> details -> bool := list_eqb detail_eqb.
 Definition tkind_eqb (a b : tkind) : bool :=
   match a, b with TCase, TCase | THolder, THolder => true | _, _ => false end.
@@ -341,9 +341,11 @@ Fixpoint wf_stack (a : adapter) : bool :=
   | Deco a' | Tagger _ _ a' => ext_ok a' && wf_stack a'
   end.
 
-Fixpoint nodupb (l : list nat) : bool :=
-  match l with [] => true | x :: r => negb (existsb (Nat.eqb x) r) && nodupb r end.
-(* a details dict: distinct names, Content objects the caller can make, a 'reason' that is text *)
+Fixpoint nodupb (l : list name) : bool :=
+  match l with [] => true | x :: r => negb (existsb (text_eqb x) r) && nodupb r end.
+(* a details dict: distinct names (any strings: names that extend one another such as 'traceback' /
+   'traceback-1' / 'tracebackx' are distinct names), Content objects the caller can make, a 'reason'
+   that is text *)
 Definition details_okb (d : details) : bool :=
   nodupb (map fst d)
   && forallb (fun x => match snd x with DTb _ => false | _ => true end) d
